@@ -26,7 +26,14 @@
     independently with the server list re-ordered / shortened / restored (gen multi: every dial result is judged against
     the listeners of ALL configured collectors); a collector that stalls in the middle of a frame until the client's
     write deadline expires, and resumes (gen stall: the expired deadline is reported by the client, tmo; what the
-    stalled connection carried in the end must still be whole frames and at most one cut frame at its END).
+    stalled connection carried in the end must still be whole frames and at most one cut frame at its END);
+    per-send option lists with the license in effect in EVERY position among the other options (Call/Enq carry the
+    license arguments in their order, olics: the specification derives the license in effect from them), option
+    objects shared between sends; IDLE PERIODS longer than the client's timers (gen idle): the queue empty for longer
+    than the drainer's poll (5 s, a constant: 1..2 polls time out) before the next packs, and a short write deadline
+    (Timeout 300..500 ms by assignment) in force on a healthy connection that stays idle for longer than it before
+    frames of every size class; Sent/Flushed carry early = the expired deadline was reported sooner than Timeout after
+    the send began -- the specification has no explanation for that (no peer stalls faster than the deadline).
     Hook events are sequenced under the send lock by one atomic counter.  What the collector read on every connection
     is a prophecy (kernel timing is not observable); the specification decides whether the outcome each socket write
     reported is allowed together with what arrived.
@@ -71,6 +78,9 @@ def mc_many(run, jobs, pool=4):
 
 
 def zero_actions(out):
+    # TLC prints the coverage statistics every minute of a long run (a loaded machine) and once at the end: only the
+    # last report counts (an action not taken yet after the first minute is not an action never taken)
+    out = out[out.rfind("The coverage statistics at"):] if "The coverage statistics at" in out else out
     return set(re.findall(r"<(\w+) line \d+, col \d+ to line \d+, col \d+ of module \w+[^>]*>: 0:0", out))
 
 
@@ -169,6 +179,7 @@ def body(run):
     run.selftest(out, rest, gen="qfull", dfs=True, field="ok")
     run.selftest(out, rest, gen="multi", dfs=True, field="addr")
     run.selftest(out, rest, gen="stall", dfs=True, field="tmo")
+    run.selftest(out, rest, gen="idle", dfs=True, field="lic")
     run.assumptions += [
         "the collector's record of every connection (frames parsed with encoding/binary, payload digests with crypto/sha256, "
         "how it ended the connection) is given to the specification as a prophecy; kernel timing is not observable, so "
@@ -188,6 +199,19 @@ def body(run):
         "a deadline that expires although the collector reads (machine load) is therefore a stall to the specification too "
         "and can only cost detection; stalls are exercised in direct mode and with SendAndClear, not with the background "
         "worker (it re-dials on its own, which must not happen under the shortened deadline)",
+        "idle periods (gen idle) are plain waits of the scenario (drainer's poll + 0.6..1.2 s; 1.5 x the shortened Timeout), not "
+        "orderings: a wait that turns out too short only means the timer under test has not fired (detection lost). `early` "
+        "(an expired write deadline reported sooner than Timeout after the Built hook of the send in progress, 5% slack) is "
+        "measured with the monotonic clock inside the client's own goroutine: machine load only lengthens the measured time, "
+        "so load can turn an early expiry into an accepted one but never the reverse; the writer's sticky error repeated by a "
+        "later write/flush is not judged for earliness. With the short deadline in force no dial happens (a connection "
+        "exists; the calm deadline of 10 s is restored as soon as the client reports an error), and a short deadline that "
+        "really expires under load is a stall to the specification. In worker mode the end of a burst of ONE producer is "
+        "awaited as 'the last accepted pack was flushed and the queue is empty' so that a pack that was accepted and never "
+        "left the queue is judged by TLC (Tick / head-of-queue / End) instead of voiding the history",
+        "per-send options: the LAST WithLicense of the list is the one in effect (an empty one = no override), whatever "
+        "other options (priority, secure flag) stand before, between or after; the specification derives it from the logged "
+        "list of license arguments",
         "queue mode: accepted enqueues are placed in the order the drainer dequeued them, no earlier than their call; the "
         "specification rejects an order that contradicts real time (Tick) and a dequeue that is not the head of the queue; "
         "a full queue is exercised only with ONE producer (every entry point; the drainer not running, parked inside a send or "
